@@ -238,6 +238,32 @@ class Sub:
         self.stateful = stateful
 
 
+CASE_CPU_LIMIT = 900  # seconds of CPU one case may burn before the run is declared broken (exit 2)
+
+
+@contextlib.contextmanager
+def _cpu_watchdog(sub_name):
+    """A case that spins forever (a bug in the harness or an endless loop in the library that the check
+    does not guard with time_limit) must not hang the check: after CASE_CPU_LIMIT CPU-seconds the run
+    ends as a harness error.  Uses ITIMER_VIRTUAL so that it does not interfere with time_limit."""
+    import signal
+
+    def handler(signum, frame):
+        raise HarnessError(f"{sub_name}: one case used more than {CASE_CPU_LIMIT} s of CPU")
+
+    try:
+        old = signal.signal(signal.SIGVTALRM, handler)
+        signal.setitimer(signal.ITIMER_VIRTUAL, CASE_CPU_LIMIT)
+    except (ValueError, AttributeError):  # not in the main thread
+        yield
+        return
+    try:
+        yield
+    finally:
+        signal.setitimer(signal.ITIMER_VIRTUAL, 0)
+        signal.signal(signal.SIGVTALRM, old)
+
+
 class Recorder:
     """Accumulates what one shard did."""
 
@@ -263,7 +289,7 @@ class Recorder:
         ctx.tier = self.tier
         try:
             try:
-                with quiet():
+                with quiet(), _cpu_watchdog(self.sub.name):
                     self.sub.check(case, ctx)
             except (Violation, Discard, StopRun, HarnessError, KeyboardInterrupt):
                 raise
